@@ -70,6 +70,9 @@ class Classes:
                 r = self.src.resolve_base(c, b)
                 if r:
                     out.append(r if not r.startswith('ext:') else 'builtin:object')
+            m = api.MODELS.get(q)
+            if m is not None:
+                out.extend(self.canon(b) for b in m.bases)      # virtual interface bases
             return out
         m = api.MODELS.get(q)
         if m is not None:
@@ -78,7 +81,8 @@ class Classes:
 
     def mro(self, q):
         q = self.canon(q)
-        if self.is_real(q):
+        if self.is_real(q) and not any(api.MODELS.get(c) is not None and api.MODELS[c].bases
+                                       for c in self.src.mro(q) if not c.startswith(('builtin:', 'ext:'))):
             out = []
             for c in self.src.mro(q):
                 if c.startswith('ext:'):
